@@ -266,7 +266,38 @@ def gen(rng, tier='quick', exact_only=False, label_kind=None, allow_affine=True,
         expect = bool(rng.random() < 0.4)
         rows.append({'e': expr(), 'sense': 'le' if rng.random() < 0.5 else 'ge', 'rhs': 0.0,
                      'expect': expect})
-    spec = {'S': Sn, 'labels': labels, 'nz': nz, 'supports': supports, 'shared': bool(shared),
+    amb2 = None
+    if rows and rng.random() < 0.3 and wass is None:
+        sup2 = []
+        cen2 = centers.copy()
+        for s in range(Sn):
+            k2 = (kinds_exact[:4] if exact_only else kinds_exact[:4] + ['norm2'])[int(rng.integers(
+                4 if exact_only else 5))]
+            pr2, n2, zc2 = S.random_set(rng, nz, [k2], allow_aux=False, center=centers[s],
+                                        scale=float(rng.uniform(0.4, 1.2)), allow_fixed=False)
+            pr2 = [pr2[0]]
+            pr2[0]['center'] = list(zc2)
+            sup2.append(pr2)
+        ph2 = rng.uniform(0.5, 1.5, Sn)
+        ph2 = np.round(ph2 / ph2.sum(), 3)
+        ph2[-1] = np.round(1 - ph2[:-1].sum(), 3)
+        amb2 = {'supports': sup2, 'centers': cen2.tolist(), 'shared': False,
+                'pset': {'t': 'fixed', 'phat': ph2.tolist()} if rng.random() < 0.5 else
+                {'t': 'norminf', 'phat': ph2.tolist(), 'r': float(np.round(rng.uniform(0.05, 0.2), 3))},
+                'moments': []}
+        if Sn == 1:
+            amb2['pset'] = {'t': 'fixed', 'phat': [1.0]}
+        if rng.random() < 0.5:
+            pe = ph2 / ph2.sum()
+            mu = pe @ cen2
+            w2 = np.round(rng.uniform(0.05, 0.5, nz), 2)
+            amb2['moments'].append({'event': list(range(Sn)), 'prims': [
+                {'t': 'box', 'lo': (mu - w2).tolist(), 'hi': (mu + w2).tolist(),
+                 'idx': list(range(nz))}]})
+        for row in rows:
+            row['amb'] = int(rng.random() < 0.6)
+    spec = {'amb2': amb2, 'S': Sn, 'labels': labels, 'nz': nz, 'supports': supports,
+            'shared': bool(shared),
             'centers': centers.tolist(), 'pset': pset, 'moments': moments, 'xvars': xvars,
             'wass': wass is not None,
             'mode': mode, 'pieces': pieces, 'rows': rows,
@@ -298,6 +329,16 @@ def event_of(partition, s):
     raise KeyError(s)
 
 
+def view(spec, row=None):
+    """The spec as seen by a row: rows with their own ambiguity set (row['amb'] == 1) use
+    spec['amb2'] for supports / probability set / moments."""
+    if row is None or not row.get('amb') or not spec.get('amb2'):
+        return spec
+    v = dict(spec)
+    v.update(spec['amb2'])
+    return v
+
+
 def zero_solution(spec):
     return [([np.zeros(v['n']) for _ in v['partition']],
              [np.zeros((v['n'], spec['nz'])) for _ in v['partition']]) for v in spec['xvars']]
@@ -306,17 +347,22 @@ def zero_solution(spec):
 def _calibrate(spec, rng):
     """Right-hand sides such that the all-zero decision is feasible with slack."""
     sol = zero_solution(spec)
-    adv = Adversary(spec, rng=np.random.default_rng(1))
+    advs = {}
     for row in spec['rows']:
         sgn = 1 if row['sense'] == 'le' else -1
+        vw = view(spec, row)
+        key = 1 if vw is not spec else 0
+        if key not in advs:
+            advs[key] = Adversary(vw, rng=np.random.default_rng(1))
+        adv = advs[key]
         if row['expect']:
             val, _ = adv.worst_expectation([row['e']], sol, sgn)
         else:
             val = -np.inf
             for s in range(spec['S']):
                 al, be = value_coeffs(spec, row['e'], sol, s)
-                z, _ = S.maximize(spec['supports'][s], sgn * be, spec['nz'],
-                                  z0=np.array(spec['centers'][s]))
+                z, _ = S.maximize(vw['supports'][s], sgn * be, spec['nz'],
+                                  z0=np.array(vw['centers'][s]))
                 if z is not None:
                     val = max(val, sgn * (al + be @ z))
             if not np.isfinite(val):
@@ -633,6 +679,21 @@ def _build(spec, variant=None):
     for mo in spec['moments']:
         sel = scen_selector(fset, spec, mo['event'], rng)
         sel.exptset(S.build_rsome(mo['prims'], rso.E(z), rng))
+    fset2 = None
+    if spec.get('amb2'):
+        a2 = spec['amb2']
+        fset2 = m.ambiguity()
+        for s in range(Sn):
+            scen_selector(fset2, spec, [s], rng).suppset(*S.build_rsome(a2['supports'][s], z, rng))
+        for mo in a2['moments']:
+            scen_selector(fset2, spec, mo['event'], rng).exptset(
+                S.build_rsome(mo['prims'], rso.E(z), rng))
+        p2 = a2['pset']
+        if p2['t'] == 'fixed':
+            fset2.probset(m.p == arr(p2['phat']))
+        else:
+            fset2.probset(rso.norm(m.p - arr(p2['phat']), 'inf') <= p2['r'])
+    B.fset2 = fset2
     if variant.get('after_sets'):
         variant['after_sets'](B, rng)
     # probabilities
@@ -720,7 +781,10 @@ def _build(spec, variant=None):
         lhs = expr(row['e']) if lhs is None else lhs
         if row['expect']:
             lhs = rso.E(lhs)
-        m.st(lhs <= row['rhs'] if row['sense'] == 'le' else lhs >= row['rhs'])
+        c = (lhs <= row['rhs'] if row['sense'] == 'le' else lhs >= row['rhs'])
+        if row.get('amb') and fset2 is not None and hasattr(c, 'forall'):
+            c = c.forall(fset2)
+        m.st(c)
 
     B.add_row = add_row
     for row in spec['rows']:
@@ -764,7 +828,8 @@ def all_requirements(spec):
     reqs = []
     for k, row in enumerate(spec['rows']):
         sgn = 1 if row['sense'] == 'le' else -1
-        reqs.append(('E' if row['expect'] else 'R', [row['e']], sgn, row['rhs'], 'row%d' % k))
+        reqs.append(('E' if row['expect'] else 'R', [row['e']], sgn, row['rhs'],
+                     'row%d%s' % (k, '@amb2' if (row.get('amb') and spec.get('amb2')) else '')))
     zero = lambda: {'a': [[0.0] * v['n'] for v in spec['xvars']],
                     'P': [np.zeros((v['n'], spec['nz'])).tolist() for v in spec['xvars']],
                     'q': [0.0] * spec['nz'], 'k': 0.0}
@@ -786,8 +851,14 @@ def reference(spec, max_iter=60, tol=1e-7):
     many verified distributions / realisations; separation by the adversary."""
     Sn, nz = spec['S'], spec['nz']
     adv = Adversary(spec, rng=np.random.default_rng(2))
+    adv2 = None
+    vw2 = spec
+    if spec.get('amb2'):
+        vw2 = dict(spec)
+        vw2.update(spec['amb2'])
+        adv2 = Adversary(vw2, rng=np.random.default_rng(3))
     R = Ref()
-    R.exact = adv.exact
+    R.exact = adv.exact and (adv2 is None or adv2.exact)
     # variable layout
     off = 0
     lay = []
@@ -875,13 +946,19 @@ def reference(spec, max_iter=60, tol=1e-7):
     centre = {'p': np.array(spec['pset']['phat'], float),
               'atoms': [(s, np.array(spec['centers'][s], float), spec['pset']['phat'][s])
                         for s in range(Sn)]}
+    centre2 = centre
+    if adv2 is not None:
+        centre2 = {'p': np.array(vw2['pset']['phat'], float),
+                   'atoms': [(s, np.array(vw2['centers'][s], float), vw2['pset']['phat'][s])
+                             for s in range(Sn)]}
     for kind, pieces, sgn, rhs, tag in reqs:
+        use2 = tag.endswith('@amb2')
         if kind == 'R':
             for s in range(Sn):
-                for z in adv.pts[s][:2 * nz + 2]:
+                for z in (adv2 if use2 else adv).pts[s][:2 * nz + 2]:
                     add_robust_cut(pieces[0], sgn, rhs, s, z)
         else:
-            add_dist_cut(pieces, sgn, rhs, centre, kind == 'O')
+            add_dist_cut(pieces, sgn, rhs, centre2 if use2 else centre, kind == 'O')
     bounds0 = []
     for vi, v in enumerate(spec['xvars']):
         pass
@@ -909,11 +986,13 @@ def reference(spec, max_iter=60, tol=1e-7):
         sol = unpack(v_)
         added = 0
         for kind, pieces, sgn, rhs, tag in reqs:
+            use2 = tag.endswith('@amb2')
+            vw = vw2 if use2 else spec
             if kind == 'R':
                 for s in range(Sn):
                     al, be = value_coeffs(spec, pieces[0], sol, s)
-                    z, ex = S.maximize(spec['supports'][s], sgn * be, nz,
-                                       z0=np.array(spec['centers'][s]))
+                    z, ex = S.maximize(vw['supports'][s], sgn * be, nz,
+                                       z0=np.array(vw['centers'][s]))
                     if z is None:
                         R.status = 'oracle_failed'
                         return R
@@ -923,7 +1002,7 @@ def reference(spec, max_iter=60, tol=1e-7):
                         add_robust_cut(pieces[0], sgn, rhs, s, z)
                         added += 1
             else:
-                val, dist = adv.worst_expectation(pieces, sol, sgn)
+                val, dist = (adv2 if use2 else adv).worst_expectation(pieces, sol, sgn)
                 if val is None:
                     R.status = 'adversary_failed'
                     return R
@@ -939,6 +1018,7 @@ def reference(spec, max_iter=60, tol=1e-7):
     R.big_hit = bool(np.max(np.abs(v_)) > 0.99e4)
     if R.big_hit:
         R.status = 'unbounded_guard'
-    R.exact = R.exact and adv.exact
+    R.exact = R.exact and adv.exact and (adv2 is None or adv2.exact)
     R.adv = adv
+    R.adv2 = adv2
     return R
